@@ -69,6 +69,7 @@ def strategy_(draw, thorough):
             cols.append(next(it))
     nf["cols"] = cols
     return {"base": fr0, "opts": opts, "partition_on": pn, "new": nf,
+            "pre_remove": draw(st.sampled_from([None, None, 0, 1])),
             "rgo": draw(st.one_of(st.none(), st.integers(1, max(1, nf["n"])))),
             "via": draw(st.sampled_from(["write", "write", "write_row_groups"])), "k": None}
 
@@ -126,6 +127,12 @@ def run_case(case):
             kw["partition_on"] = list(case["partition_on"])
         try:
             fastparquet.write(basep, df0, **kw)
+            if case.get("pre_remove") is not None:
+                # the dataset's history before the append: a row group was removed (part numbers now have a gap)
+                pf_ = fastparquet.ParquetFile(basep)
+                if len(pf_.row_groups) >= 2:
+                    pf_.remove_row_groups([pf_.row_groups[case["pre_remove"] % (len(pf_.row_groups) - 1)]])
+                    labels.append("gap_in_part_numbers")
             old = _content(basep)
         except Exception as e:
             return discard("base_write_or_read_raised", labels)
@@ -256,6 +263,10 @@ def shrink_moves(case):
     if case["via"] != "write":
         c = copy.deepcopy(case)
         c["via"] = "write"
+        yield c
+    if case.get("pre_remove") is not None:
+        c = copy.deepcopy(case)
+        c["pre_remove"] = None
         yield c
 
 
